@@ -3,6 +3,7 @@
 //!   key: 1 laixer/hcu 2 laixer/vcu 3 j1939/ecu 4 kübler/encoder 5 kübler/inclinometer 6 j1939/ecm 7 volvo/d7e 0 unknown
 //!   tkind: 0 none | 1 never (u64::MAX) | 2 zero | 3 short (150 ms)
 //!   events: 1 can_id dlc b0..b7 (inject + recv) | 2 (on_tick) | 3 <motion> | 7 k (on_command other) | 4 ms (wait) | 5 (setup) | 6 (teardown)
+//!           | 8 <motion> (on_command while every socket write fails)
 //! obs  = [nevents, per event: frames.., nsignals, signals..]
 use crate::{bus::*, wire::*};
 use glonax::core::Object;
@@ -93,6 +94,14 @@ fn run(c: &[i64]) -> Vec<i64> {
                 }
                 2 => { auth.on_tick(signal_tx.clone()).await; i += 1; }
                 3 => { let (m, used) = dec_motion(&c[i + 1..]).unwrap(); auth.on_command(&Object::Motion(m)).await; i += 1 + used; }
+                8 => {
+                    // the command is accepted but every socket write fails
+                    let (m, used) = dec_motion(&c[i + 1..]).unwrap();
+                    bus.fail_sends();
+                    auth.on_command(&Object::Motion(m)).await;
+                    bus.unfail_sends();
+                    i += 1 + used;
+                }
                 7 => { auth.on_command(&other_object(c[i + 1])).await; i += 2; }
                 4 => { tokio::time::sleep(std::time::Duration::from_millis(c[i + 1] as u64)).await; i += 2; }
                 5 => { auth.setup().await; i += 1; }
